@@ -510,10 +510,17 @@ let check_single (x : qobs) input =
            if o.(16) <> o.(6) then
              (let sql s = match xtext s with Some t -> t | None -> s in
               if sql o.(16) <> sql o.(6) then f "parameterized-SQL-differs" [("before", o.(6)); ("after", o.(16))]);
+           (* deep equality: demanded for every tree the round-trip theorem speaks about (Spec/Inferable.ki_b), and for every tree
+              outside the exceptions the property lists (a quoted string reading as a pattern / regexp, an integer-valued float) *)
            (match e with
-            | Some e when not (has_kind_changing_string e) && not (has_int_valued_float e) ->
-                if o.(12) <> "deep-equal" || o.(10) <> t then f "not-deep-equal" [("before", t); ("after", o.(10))]
-            | _ -> ())
+            | Some e ->
+                let inferable = ki_b orc orc2 e in
+                if inferable then bump "c12.ki_b";
+                if inferable || (not (has_kind_changing_string e) && not (has_int_valued_float e)) then begin
+                  if o.(12) <> "deep-equal" || o.(10) <> t then f "not-deep-equal" [("before", t); ("after", o.(10)); ("ki_b", string_of_bool inferable)];
+                  if not inferable then f "tree-outside-the-theorem-premise-yet-not-a-listed-exception" [("tree", t)]
+                end
+            | None -> ())
          end
        end
    | _ -> ());
